@@ -39,7 +39,7 @@ PROPERTY = "C03"
 RULE = (
     "analytic: Hypothesis draws a transform descriptor - one of the 11 direct classes or InverseRTransform of one - with "
     "parameters inside the constructor's admissible set (rmin in {0} U [0,2], R in [0.05,20], sizes in [0.05,40], explicit b "
-    "in [1,200] or b inferred from the first array, k/m integer 1..6 and non-integer in [0.5,6], trim_inf on/off, HandyMod "
+    "in [1,200] or b >= 0.4 inferred from the first array, k/m integer 1..6 and non-integer in [0.5,6], trim_inf on/off, HandyMod "
     "only with rmax-rmin >= 2^m-1+0.01, Hyperbolic with b*(npoints-1)<1 and x<1/b) and 1..6 interior points (fractions of "
     "the domain of use, incl. the values 1e-3 from each end), fed as one array or - for the methods that accept numbers - "
     "as Python floats; all eight methods (transform, inverse, deriv, deriv2, deriv3, deriv_inverse, deriv2_inverse, "
@@ -63,6 +63,7 @@ RT = 1e-9
 CS = 1e3
 ILL = 1e-6
 DELTA = 1e-3  # interior points keep this relative distance from the ends of the domain of use
+B_INFERRED_MIN = 0.4  # an inferred b is the largest node of the first grid; every 1D rule on [0, inf) reaches at least 0.45
 
 SCALAR_METHODS = {
     # methods that accept a Python float today (observed; LinearInfinite.deriv* and every Hyperbolic method use x.size)
@@ -151,7 +152,10 @@ def _param_variants(desc, b):
     out.append(O.ref(rebuild(d1)))
     if base["cls"] in O.BSCALED:
         d2 = dict(base)
-        d2["b"] = O.M(base["b"] if base["b"] is not None else b) * (1 + THETA)
+        bb = O.M(base["b"] if base["b"] is not None else b)
+        # Power uses b only through log(b + 1): the sum b + 1 is rounded, which moves b by eps*(b + 1) (matters for an
+        # inferred b << 1); Exp and LinearInfinite divide by b
+        d2["b"] = (bb + 1) * (1 + THETA) - 1 if base["cls"] == "Power" else bb * (1 + THETA)
         out.append(O.ref(rebuild(d2)))
     return out
 
@@ -202,8 +206,8 @@ def body_analytic(case, ctx):
     b = None
     if base["cls"] in O.BSCALED and base["b"] is None:
         b = max(X)
-        if not b > 1e-12:
-            ctx.skip("inferred b would be zero (documented ValueError)")
+        if not b >= B_INFERRED_MIN:
+            ctx.skip("inferred b below 0.4 (zero is a documented ValueError; the scale point of a grid is not tiny)")
             return
     tf = O.build(desc)
     rf = O.ref(desc, b)
@@ -351,8 +355,8 @@ def body_endpoints(case, ctx):
     if base["cls"] in O.BSCALED and base["b"] is None:
         first = [ui * case.get("xmax", 10.0) for ui in case["u"]]
         b = max(first)
-        if not b > 1e-12:
-            ctx.skip("inferred b would be zero (documented ValueError)")
+        if not b >= B_INFERRED_MIN:
+            ctx.skip("inferred b below 0.4 (zero is a documented ValueError; the scale point of a grid is not tiny)")
             return
         tf.transform(np.array(first, dtype=float))  # the array that fixes b
     rf = O.ref(desc, b)
